@@ -17,6 +17,16 @@ An operation is a JSON-able dict (rationals are fractions.Fraction in memory, [n
   {"k": "bin", "t": i, "f": int | [..] | "bad", "axes": .., "mean": bool, "ip": bool}
   {"k": "fourier", "t": i, "spec": ["out", [..]] | ["fac", q] | ["facs", [q..]], "axes": .., "ip": bool}
   {"k": "getitem", "t": i, "idx": [["i", k] | ["s", a, b, c] | ["l", [..]] | ["e"]]}
+      optional "form": "np" (integers / slice fields / list entries as numpy integer scalars),
+      "tuple" (lists written as tuples), "bare" (a single item not wrapped in a tuple);
+      optional "via": "to_d2", "j": j  -> element j of Dataset3d.to_dataset2d() (= ds[j])
+  {"k": "from_shape", "cls": c, "shape": [..], "fill": n, "origin"/"sampling"/"units": as from_array}
+  {"k": "to_d2", "t": i}                        expands into the "via" getitem operations above
+  {"k": "dp", "t": i, "red": "mean"|"max"|"median", "how": "get"|"attach"|"prop"}   Dataset4dstem.get_dp_*
+  {"k": "virt", "t": i, "det": ["mask", [n2, n3], [bits]] | ["circle", cy, cx, r] |
+                               ["annular", cy, cx, ri, ro] | ["bad", which], "attach": bool}
+  {"k": "set_name" | "set_signal_units", "t": i, "val": which}     (any value: str() is applied)
+calibration values may also be ["x", kind, ...] (malformed or unusual Python values, see num_py/units_py).
 """
 from __future__ import annotations
 
@@ -33,7 +43,9 @@ SCALE = 1 << 20
 MC = 1 << 80
 HC = 1 << 79
 TOL = 4096          # codes (= 0.004): slack after a float-valued transform (mean / resample)
-DTYPES = {"i8": np.int64, "f8": np.float64, "f4": np.float32, "c16": np.complex128}
+DTYPES = {"i8": np.int64, "i4": np.int32, "f8": np.float64, "f4": np.float32, "c16": np.complex128,
+          "c8": np.complex64}
+CPLX = ("c16", "c8")
 CLS_CODE = {"Generic": 0, "D2": 2, "D3": 3, "D4": 4, "D4stem": 5}
 ERR_CODE = {"TypeErr": 1, "ValueErr": 2, "IndexErr": 3, "OtherErr": 4}
 
@@ -67,8 +79,8 @@ def err_name(e: BaseException) -> str:
 def make_array(shape, dt, base):
     n = int(np.prod(shape)) if len(shape) else 1
     v = np.arange(n, dtype=np.int64) + int(base)
-    if dt == "c16":
-        a = v.astype(np.complex128) + 1j * ((v * 3) % 11 - 5)
+    if dt in CPLX:
+        a = (v.astype(np.complex128) + 1j * ((v * 3) % 11 - 5)).astype(DTYPES[dt])
     else:
         a = v.astype(DTYPES[dt])
     return a.reshape(shape)
@@ -101,33 +113,81 @@ def to_q(x) -> Fraction:
     return Fraction(*float(x).as_integer_ratio())
 
 
+def _n(q):
+    return int(q) if q.denominator == 1 else float(q)
+
+
 def num_py(v):
     """calibration argument -> python value handed to the implementation"""
     if v is None:
         return None
     if v[0] == "s":
-        q = v[1]
-        return int(q) if q.denominator == 1 else float(q)
-    return [int(q) if q.denominator == 1 else float(q) for q in v[1]]
+        return _n(v[1])
+    if v[0] == "l":
+        return [_n(q) for q in v[1]]
+    kind = v[1]
+    if kind == "none":
+        return None
+    if kind == "other":
+        return [{}, {1, 2}, range(3), object()][v[2] % 4]
+    if kind == "str":
+        return "1.5"
+    if kind == "bool":
+        return True
+    if kind == "nonnum":      # a list that NumPy cannot give a numeric dtype
+        n = v[2]
+        return [["a"] * n, [True] * n, [None] + [1] * (n - 1) if n else [], ["1"] + [2] * (n - 1) if n else []][v[3] % 4]
+    if kind == "nested":
+        return [[_n(q) for q in row] for row in v[2]]
+    if kind == "tuple":
+        return tuple(_n(q) for q in v[2])
+    if kind == "nd":
+        return np.array([_n(q) for q in v[2]])
+    if kind == "nd2":         # a 2-D ndarray: flattened by the validator
+        return np.array([[_n(q) for q in row] for row in v[2]])
+    if kind == "nps":
+        q = v[2]
+        return np.int64(int(q)) if q.denominator == 1 else np.float64(float(q))
+    raise KeyError(kind)
 
 
 def units_py(v):
     if v is None:
         return None
-    return v[1] if v[0] == "s" else list(v[1])
+    if v[0] == "s":
+        return v[1]
+    if v[0] == "l":
+        return list(v[1])
+    kind = v[1]
+    if kind == "other":
+        return [None, 3, np.array(["a", "b"]), {"a": 1}, b"nm"][v[2] % 5]
+    if kind == "ints":        # entries pass through str()
+        return [int(x) for x in v[2]]
+    if kind == "tuple":
+        return tuple(v[2])
+    raise KeyError(kind)
 
 
-def idx_py(idx):
+NAME_VALUES = ["renamed", 7, None, ["a"], 2.5]
+
+
+def idx_py(idx, form=None):
+    """the Python index expression; `form` only changes how the same expression is spelled"""
+    npf = form == "np"
+    I = (lambda x: np.int64(int(x))) if npf else int  # noqa: E731
     out = []
     for it in idx:
         if it[0] == "i":
-            out.append(int(it[1]))
+            out.append(I(it[1]))
         elif it[0] == "s":
-            out.append(slice(it[1], it[2], it[3]))
+            out.append(slice(*[None if x is None else I(x) for x in it[1:4]]))
         elif it[0] == "l":
-            out.append([int(x) for x in it[1]])
+            lst = [I(x) for x in it[1]]
+            out.append(tuple(lst) if (form == "tuple" and len(idx) > 1) else lst)
         else:
             out.append(Ellipsis)
+    if form == "bare" and len(out) == 1:
+        return out[0]
     return tuple(out)
 
 
@@ -235,6 +295,8 @@ class Impl:
         L = self.live
         if k == "from_array":
             arr = make_array(op["shape"], op["dt"], op["base"])
+            if op.get("aslist"):
+                arr = arr.tolist()          # an array-like: ensure_valid_array converts it
             kw = {}
             if op.get("origin") is not None:
                 kw["origin"] = num_py(op["origin"])
@@ -243,11 +305,28 @@ class Impl:
             if op.get("units") is not None:
                 kw["units"] = units_py(op["units"])
             return C[op["cls"]].from_array(arr, **kw)
+        if k == "from_shape":
+            kw = {}
+            if op.get("origin") is not None:
+                kw["origin"] = num_py(op["origin"])
+            if op.get("sampling") is not None:
+                kw["sampling"] = num_py(op["sampling"])
+            if op.get("units") is not None:
+                kw["units"] = units_py(op["units"])
+            return C[op["cls"]].from_shape(tuple(int(x) for x in op["shape"]), fill_value=float(op["fill"]), **kw)
         t = L[op["t"]]
+        if k == "dp":
+            nm = "dp_" + op["red"]
+            if op["how"] == "prop":
+                return getattr(t, nm)
+            return getattr(t, "get_" + nm)(attach=op["how"] == "attach")
+        if k == "virt":
+            return t.get_virtual_image(name="v%d" % len(getattr(t, "_virtual_images", {})),
+                                       attach=bool(op["attach"]), **det_py(op["det"]))
         if k == "from_ds":
             return C[op["cls"]].from_array(t.array)
         if k == "copy":
-            return t.copy()
+            return t.copy() if op.get("cca", True) else t.copy(copy_custom_attributes=False)
         if k == "set_origin":
             t.origin = num_py(op["v"])
             return None
@@ -258,13 +337,17 @@ class Impl:
             t.units = units_py(op["v"])
             return None
         if k == "set_array":
-            t.array = make_array(op["shape"], op["dt"], op["base"])
+            arr = make_array(op["shape"], op["dt"], op["base"])
+            t.array = arr.tolist() if op.get("aslist") else arr
             return None
         if k == "set_array_from":
             t.array = L[op["src"]].array
             return None
         if k == "set_name":
-            t.name = "renamed"
+            t.name = NAME_VALUES[op.get("val", 0) % len(NAME_VALUES)]
+            return None
+        if k == "set_signal_units":
+            t.signal_units = NAME_VALUES[op.get("val", 0) % len(NAME_VALUES)]
             return None
         if k == "pad":
             return apply_flagged(t, op, op["ip"])
@@ -288,12 +371,16 @@ class Impl:
             self.tainted = True
             return r
         if k == "getitem":
-            return t[idx_py(op["idx"])]
+            if op.get("via") == "to_d2":
+                if op["j"] == 0:
+                    self.pending = t.to_dataset2d()
+                return self.pending[op["j"]]
+            return t[idx_py(op["idx"], op.get("form"))]
         raise KeyError(k)
 
     def apply(self, op):
         """returns (err_name | None, new_index | None)"""
-        if op["k"] == "bin" and op.get("mean"):
+        if (op["k"] == "bin" and op.get("mean")) or (op["k"] == "dp" and op["red"] == "mean"):
             self.tainted = True
         with warnings.catch_warnings():
             warnings.simplefilter("ignore")
@@ -307,41 +394,81 @@ class Impl:
         return None, None
 
 
-def apply_flagged(t, op, in_place):
+def det_py(det):
+    """keyword arguments of get_virtual_image for a detector description"""
+    kind = det[0]
+    if kind == "mask":
+        return {"mask": np.array(det[2], dtype=bool).reshape(tuple(det[1]))}
+    if kind == "circle":
+        return {"mode": "circle", "geometry": ((_n(det[1]), _n(det[2])), _n(det[3]))}
+    if kind == "annular":
+        return {"mode": "annular", "geometry": ((_n(det[1]), _n(det[2])), (_n(det[3]), _n(det[4])))}
+    return [{}, {"mode": "square", "geometry": ((0, 0), 1)}, {"mode": "circle"},
+            {"mode": "circle", "geometry": ((0, 0, 0), 1)}, {"mode": "annular", "geometry": ((0, 0), (1,))}][det[1] % 5]
+
+
+def expand_op(impl, op):
+    """operations that return several datasets are executed as one operation per returned
+    dataset (Dataset3d.to_dataset2d() == [ds[i] for i in range(n)])"""
+    if op["k"] != "to_d2":
+        return [op]
+    d = impl.live[op["t"]]
+    if cls_name(d) != "D3" or d.array.shape[0] == 0:
+        return [{"k": "set_name", "t": op["t"], "val": 0}]
+    return [{"k": "getitem", "t": op["t"], "idx": [["i", j]], "via": "to_d2", "j": j}
+            for j in range(min(int(d.array.shape[0]), 6))]
+
+
+def apply_flagged(t, op, in_place, extra=None):
+    """pad / crop / bin / fourier_resample.  op["aform"] spells the same arguments differently:
+    "np" NumPy integer / float scalars, "list" lists instead of tuples, "float" a float axis;
+    `extra`: further keyword arguments (np.pad modes, oracle only)"""
     k = op["k"]
+    af = op.get("aform")
+    I = (lambda x: np.int64(int(x))) if af == "np" else int  # noqa: E731
+    seq = list if af == "list" else tuple
+
+    def axes_of(ax):
+        if ax is None:
+            return None
+        if isinstance(ax, int):
+            return float(ax) if af == "float" else I(ax)
+        return seq(I(a) for a in ax)
+
     if k == "pad":
         sp = op["spec"]
-        kw = {}
+        kw = dict(extra or {})
         if sp[0] == "int":
-            kw["pad_width"] = int(sp[1])
+            kw["pad_width"] = I(sp[1])
         elif sp[0] == "pair":
-            kw["pad_width"] = (int(sp[1]), int(sp[2]))
+            kw["pad_width"] = seq((I(sp[1]), I(sp[2])))
         elif sp[0] == "pairs":
-            kw["pad_width"] = tuple((int(b), int(a)) for b, a in sp[1])
+            kw["pad_width"] = seq(seq((I(b), I(a))) for b, a in sp[1])
         elif sp[0] == "shape":
-            kw["output_shape"] = tuple(int(x) for x in sp[1])
+            kw["output_shape"] = seq(I(x) for x in sp[1])
         elif sp[0] == "both":
             kw["pad_width"] = 1
             kw["output_shape"] = tuple(t.shape)
         return t.pad(modify_in_place=in_place, **kw)
     if k == "crop":
-        return t.crop(tuple((int(b), int(a)) for b, a in op["w"]), axes=axes_py(op["axes"]),
+        return t.crop(seq(seq((I(b), I(a))) for b, a in op["w"]), axes=axes_of(op["axes"]),
                       modify_in_place=in_place)
     if k == "bin":
         f = op["f"]
-        f = 2.5 if f == "bad" else (int(f) if isinstance(f, int) else tuple(int(x) for x in f))
-        return t.bin(f, axes=axes_py(op["axes"]), modify_in_place=in_place,
-                     reducer="mean" if op["mean"] else "sum")
+        f = 2.5 if f == "bad" else (I(f) if isinstance(f, int) else seq(I(x) for x in f))
+        red = (["mean", "Mean", "MEAN"] if op["mean"] else ["sum", "Sum", "SUM"])[op.get("rsp", 0) % 3]
+        return t.bin(f, axes=axes_of(op["axes"]), modify_in_place=in_place, reducer=red)
     if k == "fourier":
         sp = op["spec"]
+        F = np.float64 if af == "np" else float
         kw = {}
         if sp[0] == "out":
-            kw["out_shape"] = tuple(int(x) for x in sp[1])
+            kw["out_shape"] = seq(I(x) for x in sp[1])
         elif sp[0] == "fac":
-            kw["factors"] = float(sp[1])
+            kw["factors"] = F(sp[1])
         else:
-            kw["factors"] = tuple(float(x) for x in sp[1])
-        return t.fourier_resample(axes=axes_py(op["axes"]), modify_in_place=in_place, **kw)
+            kw["factors"] = seq(F(x) for x in sp[1])
+        return t.fourier_resample(axes=axes_of(op["axes"]), modify_in_place=in_place, **kw)
     raise KeyError(k)
 
 
@@ -456,6 +583,82 @@ def oracle_getitem(src_obs, idx, err, res):
     return None
 
 
+def oracle_reduction(src, op, res):
+    """Dataset4dstem.get_dp_* / get_virtual_image: the returned dataset is a Dataset2d over the two
+    axes that are kept (detector axes 2, 3 / scan axes 0, 1) and carries exactly their calibration,
+    in order.  `src` is unchanged by the call (checked separately)."""
+    keep = [2, 3] if op["k"] == "dp" else [0, 1]
+    so, ro = observe(src), observe(res)
+    what = op_str(op)
+    if ro["cls"] != "D2" or ro["shape"] != [so["shape"][k] for k in keep]:
+        return "reduction-shape", "%s on shape %s returned %s of shape %s" % (what, so["shape"], ro["cls"], ro["shape"])
+    for key in ("origin", "sampling", "units"):
+        if ro[key] != [so[key][k] for k in keep]:
+            return "reduction-axes", "%s: %s of the result is %s, the kept axes %s of the source carry %s" % (
+                what, key, [str(x) for x in ro[key]], keep, [str(so[key][k]) for k in keep])
+    return None
+
+
+def oracle_attached(r):
+    """Dataset4dstem with attached state (cached dp_* datasets, virtual images and detectors): the
+    attached datasets are coherent Dataset2d objects, the cached property returns the attached
+    object, copy() neither shares nor changes them, regenerate_virtual_images() rebuilds coherent
+    images, and none of this touches the dataset itself.  Returns a list of (key, what)."""
+    import io
+    from contextlib import redirect_stdout
+    C = classes()
+    bad = []
+    sh = [r.choice([1, 2, 3]) for _ in range(4)]
+    dt = r.choice(["i8", "f8", "f4"])
+    pool = [Fraction(1), Fraction(2), Fraction(1, 2), Fraction(-3, 4), Fraction(5)]
+    d = C["D4stem"].from_array(make_array(sh, dt, 1), origin=[_n(r.choice(pool)) for _ in range(4)],
+                               sampling=[_n(r.choice(pool)) for _ in range(4)], units=["a", "b", "c", "d"])
+    snap = snapshot(d)
+    att = {}
+    for red in r.sample(["mean", "max", "median"], r.randint(1, 3)):
+        att[red] = getattr(d, "get_dp_" + red)(attach=True)
+        if getattr(d, "dp_" + red) is not att[red]:
+            bad.append(("attached-cache", "dp_%s does not return the attached dataset" % red))
+    d.get_virtual_image(mask=np.array([[(i + j) % 2 == 0 for j in range(sh[3])] for i in range(sh[2])]), name="m")
+    d.get_virtual_image(mode="circle", geometry=((1, 0.5), 1.5), name="c")
+    d.get_virtual_image(mode="annular", geometry=((0, 0), (0.5, 2)), name="a")
+    held = list(att.values()) + list(d.virtual_images.values())
+    held_snaps = [snapshot(x) for x in held]
+    with warnings.catch_warnings(), redirect_stdout(io.StringIO()):
+        warnings.simplefilter("ignore")
+        c = d.copy()
+        k = r.choice(["crop", "bin", "pad", "getitem", "none"])
+        if k == "crop":
+            c.crop(((0, 0), (0, 0), (0, -1 if sh[2] > 1 else 0), (0, 0)), modify_in_place=True)
+        elif k == "bin":
+            c.bin(2 if min(sh) > 1 else 1, modify_in_place=True)
+        elif k == "pad":
+            c.pad(1, modify_in_place=True)
+        elif k == "getitem":
+            c = c[::-1, :, ::2]
+        c.regenerate_virtual_images()
+        c_held = [getattr(c, "_dp_" + red) for red in att if hasattr(c, "_dp_" + red)] + list(c.virtual_images.values())
+    for x in held + c_held + [c, d]:
+        v = coherent(x)
+        if v:
+            bad.append((v[0], "attached / regenerated dataset after %s: %s" % (k, v[1])))
+    for x in held + c_held:
+        if cls_name(x) != "D2":
+            bad.append(("class-ndim", "attached dataset has class %s" % type(x).__name__))
+    for im in c.virtual_images.values():
+        if list(im.shape) != list(c.shape[:2]):
+            bad.append(("reduction-shape", "regenerated virtual image has shape %s for scan shape %s after %s" % (
+                im.shape, c.shape[:2], k)))
+    for x in c_held:
+        for y in held + [d]:
+            if x is y or np.shares_memory(x.array, y.array) or np.shares_memory(x.origin, y.origin) \
+                    or np.shares_memory(x.sampling, y.sampling) or x.units is y.units:
+                bad.append(("copy-aliases-source", "a dataset attached to the copy shares an object with the source's"))
+    if snapshot(d) != snap or [snapshot(x) for x in held] != held_snaps:
+        bad.append(("source-modified", "copy / %s / regenerate_virtual_images on the copy changed the source" % k))
+    return bad, {"shape": sh, "dt": dt, "op": k}
+
+
 def same_dataset(x, y):
     """same array and calibration, bit for bit (NaN == NaN)"""
     if type(x) is not type(y) or x.array.shape != y.array.shape:
@@ -467,20 +670,22 @@ def same_dataset(x, y):
             and list(x.units) == list(y.units))
 
 
-def oracle_inplace_eq_copy(t, op):
+def oracle_inplace_eq_copy(t, op, extra=None):
     """clause 4, on scratch copies: t.copy().op(in place) must equal t.op(copying)"""
     with warnings.catch_warnings():
         warnings.simplefilter("ignore")
         c1 = t.copy()
         e1 = e2 = None
         try:
-            apply_flagged(c1, op, True)
+            apply_flagged(c1, op, True, extra)
         except Exception as e:  # noqa: BLE001
             e1 = err_name(e)
         try:
-            r2 = apply_flagged(t.copy(), op, False)
+            r2 = apply_flagged(t.copy(), op, False, extra)
         except Exception as e:  # noqa: BLE001
             e2 = err_name(e)
+    if extra:
+        op = dict(op, kwargs=extra)
     if e1 != e2:
         return "inplace-vs-copy", "%s: in-place variant %s, copying variant %s" % (
             op_str(op), e1 or "succeeds", e2 or "succeeds")
@@ -496,7 +701,9 @@ def oracle_inplace_eq_copy(t, op):
 def op_str(op):
     d = {k: v for k, v in op.items() if k not in ("base",)}
     if op["k"] == "getitem":
-        return "ds%d%s" % (op["t"], idx_str(op["idx"])[2:])
+        if op.get("via"):
+            return "ds%d.to_dataset2d()[%d]" % (op["t"], op["j"])
+        return "ds%d%s%s" % (op["t"], idx_str(op["idx"])[2:], " (%s)" % op["form"] if op.get("form") else "")
     return str(jsonable(d))
 
 
@@ -541,13 +748,46 @@ def c_zlist(xs):
 def c_num(v):
     if v[0] == "s":
         return "(NScalar %s)" % cq(v[1])
-    return "(NList %s)" % clist(v[1], cq)
+    if v[0] == "l":
+        return "(NList %s)" % clist(v[1], cq)
+    kind = v[1]
+    if kind in ("none", "other", "str", "bool"):
+        return {"none": "NNone", "other": "NOther", "str": "NStr", "bool": "NBool"}[kind]
+    if kind == "nonnum":
+        return "(NNonNum %d%%nat)" % v[2]
+    if kind in ("nested", "nd2"):
+        return "(NNested [%s])" % "; ".join(clist(row, cq) for row in v[2])
+    if kind in ("tuple", "nd"):
+        return "(NList %s)" % clist(v[2], cq)
+    if kind == "nps":
+        return "(NScalar %s)" % cq(v[2])
+    raise KeyError(kind)
 
 
 def c_units(v):
     if v[0] == "s":
         return "(UStr %s)" % cstr(v[1])
-    return "(UList %s)" % clist(v[1], cstr)
+    if v[0] == "l":
+        return "(UList %s)" % clist(v[1], cstr)
+    kind = v[1]
+    if kind == "other":
+        return "UOther"
+    if kind == "ints":
+        return "(UList %s)" % clist([str(int(x)) for x in v[2]], cstr)
+    if kind == "tuple":
+        return "(UList %s)" % clist(v[2], cstr)
+    raise KeyError(kind)
+
+
+def c_det(det):
+    kind = det[0]
+    if kind == "mask":
+        return "(DMask %s [%s])" % (cnl(det[1]), "; ".join("true" if b else "false" for b in det[2]))
+    if kind == "circle":
+        return "(DCircle %s %s %s)" % tuple(cq(x) for x in det[1:4])
+    if kind == "annular":
+        return "(DAnnular %s %s %s %s)" % tuple(cq(x) for x in det[1:5])
+    return "DBad"
 
 
 def c_axes(ax):
@@ -582,7 +822,18 @@ def c_op(op):
         return "OFromArray %s %s %s %s %s %s" % (
             op["cls"], c_nat_list(op["shape"]), c_tokens(op), copt(op.get("origin"), c_num),
             copt(op.get("sampling"), c_num), copt(op.get("units"), c_units))
+    if k == "from_shape":
+        n = 1
+        for x in op["shape"]:
+            n *= int(x)
+        return "OFromArray %s %s (constz %d (%d)) %s %s %s" % (
+            op["cls"], c_nat_list(op["shape"]), n, int(op["fill"]), copt(op.get("origin"), c_num),
+            copt(op.get("sampling"), c_num), copt(op.get("units"), c_units))
     t = cnat_(op["t"])
+    if k == "dp":
+        return "OReduceDP %s %s" % (t, {"mean": "RMean", "max": "RMax", "median": "RMedian"}[op["red"]])
+    if k == "virt":
+        return "OVirtual %s %s" % (t, c_det(op["det"]))
     if k == "from_ds":
         return "OFromDs %s %s" % (op["cls"], t)
     if k == "copy":
@@ -597,7 +848,7 @@ def c_op(op):
         return "OSetArray %s %s %s" % (t, c_nat_list(op["shape"]), c_tokens(op))
     if k == "set_array_from":
         return "OSetArrayFrom %s %s" % (t, cnat_(op["src"]))
-    if k == "set_name":
+    if k in ("set_name", "set_signal_units"):
         return "OSetName %s" % t
     if k == "pad":
         sp = op["spec"]
@@ -627,7 +878,7 @@ def c_tokens(op):
     n = 1
     for x in op["shape"]:
         n *= int(x)
-    return "(%s %d %d)" % ("tokc" if op["dt"] == "c16" else "tokr", n, int(op["base"]))
+    return "(%s %d %d)" % ("tokc" if op["dt"] in CPLX else "tokr", n, int(op["base"]))
 
 
 def cnat_(n):
@@ -654,6 +905,7 @@ Definition cre (x : Z) : Z := ((x + Hc) mod Mc - Hc)%Z.
 Definition cim (x : Z) : Z := ((x - cre x) / Mc)%Z.
 (* seed data: the same token pattern as impl_C03.make_array, as fixed-point codes *)
 Definition tokr (n base : Z) : list Z := map (fun k => ((base + Z.of_nat k) * Sc)%Z) (seq 0 (Z.to_nat n)).
+Definition constz (n v : Z) : list Z := repeat (v * Sc)%Z (Z.to_nat n).
 Definition tokc (n base : Z) : list Z :=
   map (fun k => let v := (base + Z.of_nat k)%Z in (v * Sc + Mc * (((v * 3) mod 11 - 5) * Sc))%Z) (seq 0 (Z.to_nat n)).
 (* "mean" reducer on fixed-point codes: nearest code (ties to even), real and imaginary parts *)
